@@ -178,8 +178,18 @@ def main():
         env["LANEP_VARIANT"] = args.variant
         env["PYTHONDONTWRITEBYTECODE"] = "1"
         env.setdefault("NUMBA_CACHE_DIR", os.path.join(scratch, "numba_cache"))
-        if "LANEP_BUILDDIR" not in env:
-            env["LANEP_BUILDDIR"] = vbuild.ensure(args.variant)
+        # a private copy of the build: vbuild prunes old output directories while other jobs build
+        src_build = env.get("LANEP_BUILDDIR") or vbuild.ensure(args.variant)
+        for attempt in range(4):
+            try:
+                shutil.copytree(src_build, os.path.join(scratch, "build"), symlinks=False)
+                break
+            except (OSError, shutil.Error):
+                shutil.rmtree(os.path.join(scratch, "build"), ignore_errors=True)
+                if env.get("LANEP_BUILDDIR") or attempt == 3:
+                    raise
+                src_build = vbuild.ensure(args.variant)
+        env["LANEP_BUILDDIR"] = os.path.join(scratch, "build")
         with ThreadPoolExecutor(max_workers=args.jobs) as ex:
             results = list(ex.map(lambda f: run_file(f, scratch, args.variant, args.timeout, env), files))
     finally:
